@@ -5,6 +5,10 @@ X = "acme_common/src/crypto/openssl_certificate.rs"
 CR = "acme_common/src/crypto.rs"
 
 
+# the three loops of Csr::new, named by what they iterate over (a contract keyed this way follows its loop when blocks are moved)
+L1, L2, L3 = r"in subject_attributes\b", r"in domains\b", r"in ips\b"
+
+
 def build():
     u = Unit("x509", "acme_common")
     u.prelude("stdx", "time", "ac_shims", "vmap")
@@ -30,39 +34,37 @@ def build():
     u.take(X, "Csr", "crypto::openssl_certificate")
     u.take(X, "X509Certificate", "crypto::openssl_certificate")
     u.verify(X, "Csr::new", "crypto::openssl_certificate", props=["C01"], fns={"new": FnSpec(ret="r", sig="""
-    ensures r matches Ok(csr) ==> ({
-        let v = csr.inner_csr.view@;
+    ensures
         // the request carries exactly: the public half of key_pair, the configured subject attributes, one
         // subjectAltName extension with the given dNSName and iPAddress entries in order, and a self-signature
-        // by the same key with the configured digest (none for EdDSA keys)
-        &&& v.pubkey == Some(key_pair.inner_key.ident@) //@C01.csr_public_key_is_the_key_pair
-        &&& v.exts == seq![ExtView::San { dns: strs(domains@), ip: strs(ips@) }] //@C01.csr_san_is_exactly_the_identifiers
-        &&& v.signed == Some((key_pair.inner_key.ident@, digest_id(digest, key_pair.key_type))) //@C01.csr_self_signed_with_configured_digest
-        &&& (crate::vmap::pairs_of(*subject_attributes).len() == 0 ==> v.subject is None)
-        &&& (crate::vmap::pairs_of(*subject_attributes).len() > 0 ==> (v.subject matches Some(n) && n.by_text.len() == 0
-                && n.by_nid == subject_entries(crate::vmap::pairs_of(*subject_attributes)))) //@C01.csr_subject_is_the_configured_attributes
-    }),
-""", loops={1: """
+        // by the same key with the configured digest (none for EdDSA keys) made over all of that
+        r matches Ok(csr) ==> csr.inner_csr.view@.pubkey == Some(key_pair.inner_key.ident@), //@C01.csr_public_key_is_the_key_pair
+        r matches Ok(csr) ==> csr.inner_csr.view@.exts == seq![ExtView::San { dns: strs(domains@), ip: strs(ips@) }], //@C01.csr_san_is_exactly_the_identifiers
+        r matches Ok(csr) ==> csr.inner_csr.view@.signed == Some((key_pair.inner_key.ident@, digest_id(digest, key_pair.key_type))), //@C01.csr_self_signed_with_configured_digest
+        r matches Ok(csr) ==> (crate::vmap::pairs_of(*subject_attributes).len() == 0 ==> csr.inner_csr.view@.subject is None), //@C01.csr_subject_is_the_configured_attributes
+        r matches Ok(csr) ==> (crate::vmap::pairs_of(*subject_attributes).len() > 0 ==> (csr.inner_csr.view@.subject matches Some(n) && n.by_text.len() == 0
+                && n.by_nid == subject_entries(crate::vmap::pairs_of(*subject_attributes)))), //@C01.csr_subject_is_the_configured_attributes
+""", loops={L1: """
     invariant snb.view@ == (NameView { by_nid: subject_entries(crate::vmap::pairs_of(*subject_attributes).take(it1.index@)), by_text: Seq::empty() }),
         pairs__@ == crate::vmap::pairs_of(*subject_attributes),
-""", 2: "    invariant san.dns@ == strs(domains@.take(it2.index@)), san.ip@ == Seq::<Seq<char>>::empty(),",
-            3: "    invariant san.dns@ == strs(domains@), san.ip@ == strs(ips@.take(it3.index@)),"},
+""", L2: "    invariant san.dns@ == strs(domains@.take(it2.index@)), san.ip@ == Seq::<Seq<char>>::empty(),",
+            L3: "    invariant san.dns@ == strs(domains@), san.ip@ == strs(ips@.take(it3.index@)),"},
         rewrites=[("T-MAP", r"subject_attributes\.is_empty\(\)", "crate::vmap::is_empty(subject_attributes)"),
                   ("T-MAP", r"for \(sattr, val\) in subject_attributes\.iter\(\)", "for (sattr, val) in it1: pairs__.iter()")],
         at=[("before_stmt", "for (sattr, val) in", 1, "let pairs__ = crate::vmap::pairs(subject_attributes);", "T-MAP"),
             ("before_stmt", "for (sattr, val) in", 1, "proof { assert(pairs__@.take(0) =~= Seq::empty()); assert(subject_entries(pairs__@.take(0)) =~= Seq::empty()); }"),
-            ("loop_end", None, 1, """
+            ("loop_end", None, L1, """
                 proof {
                     let k = it1.index@;
                     assert(pairs__@.take(k + 1) =~= pairs__@.take(k).push(pairs__@[k]));
                     assert(subject_entries(pairs__@.take(k + 1)) =~= subject_entries(pairs__@.take(k)).push((nid_of(pairs__@[k].0), pairs__@[k].1@)));
                 }"""),
-            ("before_stmt", "let name = snb.build()", 1, "proof { assert(pairs__@.take(pairs__@.len() as int) =~= pairs__@); }"),
-            ("loop_iter", None, 2, "it2:"), ("loop_iter", None, 3, "it3:"),
+            ("loop_after", None, L1, "proof { assert(pairs__@.take(pairs__@.len() as int) =~= pairs__@); }"),
+            ("loop_iter", None, L2, "it2:"), ("loop_iter", None, L3, "it3:"),
             ("before_stmt", "for dns in", 1, "proof { assert(strs(domains@.take(0)) =~= Seq::<Seq<char>>::empty()); }"),
-            ("loop_end", None, 2, "proof { let k = it2.index@; assert(domains@.take(k + 1) =~= domains@.take(k).push(domains@[k])); assert(strs(domains@.take(k + 1)) =~= strs(domains@.take(k)).push(domains@[k]@)); }"),
+            ("loop_end", None, L2, "proof { let k = it2.index@; assert(domains@.take(k + 1) =~= domains@.take(k).push(domains@[k])); assert(strs(domains@.take(k + 1)) =~= strs(domains@.take(k)).push(domains@[k]@)); }"),
             ("before_stmt", "for ip in", 1, "proof { assert(domains@.take(domains@.len() as int) =~= domains@); assert(strs(ips@.take(0)) =~= Seq::<Seq<char>>::empty()); }"),
-            ("loop_end", None, 3, "proof { let k = it3.index@; assert(ips@.take(k + 1) =~= ips@.take(k).push(ips@[k])); assert(strs(ips@.take(k + 1)) =~= strs(ips@.take(k)).push(ips@[k]@)); }"),
+            ("loop_end", None, L3, "proof { let k = it3.index@; assert(ips@.take(k + 1) =~= ips@.take(k).push(ips@[k])); assert(strs(ips@.take(k + 1)) =~= strs(ips@.take(k)).push(ips@[k]@)); }"),
             ("before_stmt", "let san = san.build", 1, "proof { assert(ips@.take(ips@.len() as int) =~= ips@); }"),
             ("before_tail", None, 1, "proof { assert(builder.view@.exts =~= seq![ExtView::San { dns: strs(domains@), ip: strs(ips@) }]); }"),
             ])})
